@@ -337,7 +337,8 @@ class FrameSequence:
         """Get a frame by index or distance."""
         if isinstance(item, int):
             return self.frames[item]
-        distance = item.to(unit='m')
+        # float64 because an integer distance would be rounded to whole metres
+        distance = item.to(unit='m', dtype='float64', copy=False)
         frame_before_detector = None
         for frame in self:
             if frame.distance > distance:
